@@ -1,13 +1,28 @@
 import CalVerif.Lemmas.XmlText
+import CalVerif.Lemmas.XmlEscape
+import CalVerif.Lemmas.XmlTextXlsxCells
 /-! # C19 — cell text survives every storage form and escaping layer unchanged
 
     Property theorems only (helper lemmas: `Lemmas/XmlText.lean`; models: `Model/XmlText.lean`; storage forms
     and their rendering as event lists: `Spec/XmlText.lean`).
 
-    The theorems start at the XML *event list* (xlsx, ods) and at the UTF-16 *code units* (xlsb): entity /
-    character-reference unescaping, CDATA delimiting (quick-xml) and UTF-16 → `String` (encoding_rs) are not
-    modelled; for those layers the assurance is the correspondence run only.  The property as a whole is
-    therefore **partially** proved: every theorem below is complete for the layer it speaks about.
+    The reader theorems start at the XML *event list* (xlsx, ods) and at the UTF-16 *code units* (xlsb).
+    Below the event list, entity / character-reference **unescaping** is modelled (`Model/XmlEscape.lean`,
+    mirroring quick-xml 0.37 `escape::unescape`) and proved to invert the writer's escaping in every spelling
+    (`unescape_escape`), and the writer's CDATA cut is proved to produce terminator-free sections that
+    concatenate back (`cdata_sections_roundtrip`).  Still trusted (correspondence run only): quick-xml's
+    tokenizer (where elements, text, CDATA sections and comments begin and end; attribute parsing; encoding
+    detection) and encoding_rs (UTF-16 → `String`).  The property as a whole is therefore **partially** proved:
+    every theorem below is complete for the layer it speaks about.
+
+    Reader configuration assumed by every event-level theorem (it is what `xml_reader` in src/xlsx/mod.rs and
+    the two `Reader` set-ups in src/ods.rs establish, for every part and hence for `<t>`, `<v>`, `<f>`, `<is>`,
+    `text:p` alike): `trim_text(false)` — a Text event carries the character data between two tags exactly,
+    leading / trailing / white-space-only text included, nothing is dropped or trimmed;
+    `expand_empty_elements = true` — `<x/>` arrives as `Start x`, `End x`; `check_end_names = false` — an end
+    tag is delivered whatever its name (the loops compare names themselves); `check_comments = false`.
+    The harness observes these settings through strings with leading, trailing and only white space, empty
+    elements written both ways, and white-space text between elements.
     The xls string readers are property C12's model (`Model/BiffStrings.lean`). -/
 namespace XmlText
 
@@ -273,9 +288,10 @@ theorem xlsx_readers_total (closing : Name) (t : Option String) (strings : List 
       | panic x => exact absurd hs (cellStep_no_panic _ _ _ _ _)
   exact ⟨hsi evs _, hsst evs _ _, hcell evs _⟩
 
-/-- The ods text loop never panics; it fails to return only inside an unclosed annotation (no `Eof` arm in
-    the skipping loop: the real reader spins forever there — a robustness finding of property C06). -/
-theorem ods_reader_no_panic (evs : List Ev) (x : String) : odsCellText evs ≠ .panic x := by
+/-- The ods text loop returns `Ok` or `Err` on every event list (an unterminated annotation is `Err(Eof)`
+    since /repo d6b5c9c). -/
+theorem ods_reader_total (evs : List Ev) :
+    (∃ r, odsCellText evs = .ok r) ∨ (∃ e, odsCellText evs = .err e) := by
   have hstep : ∀ (m : OdsMode) (e : Ev) (y : String), odsStep m e ≠ .panic y := by
     intro m e y h
     unfold odsStep at h
@@ -286,15 +302,31 @@ theorem ods_reader_no_panic (evs : List Ev) (x : String) : odsCellText evs ≠ .
     all_goals (try split at h)
     all_goals (try split at h)
     all_goals cases h
-  have : ∀ (evs : List Ev) (m : OdsMode), runOds m evs ≠ .panic x := by
+  have : ∀ (evs : List Ev) (m : OdsMode), (∃ r, runOds m evs = .ok r) ∨ (∃ e, runOds m evs = .err e) := by
     intro evs
     induction evs with
-    | nil => intro m h; cases m <;> simp [runOds] at h
+    | nil => intro m; cases m <;> exact Or.inr ⟨_, rfl⟩
     | cons e es ih =>
-      intro m h
-      cases m <;> simp only [runOds] at h <;>
-        (split at h <;> first | exact ih _ h | (cases h; done) | (rename_i hs; cases h; exact hstep _ _ _ hs))
+      intro m
+      have hrun : runOds m (e :: es) = (match odsStep m e with
+          | .cont m' => runOds m' es
+          | .done v => .ok (v, es)
+          | .fail x => .err x
+          | .panic x => .panic x) := by cases m <;> rfl
+      rw [hrun]
+      cases hs : odsStep m e with
+      | cont m' => exact ih m'
+      | done v => exact Or.inl ⟨_, rfl⟩
+      | fail x => exact Or.inr ⟨_, rfl⟩
+      | panic x => exact absurd hs (hstep _ _ _)
   exact this evs _
+
+/-- corollary kept under its earlier name (re-exported by Props/C06) -/
+theorem ods_reader_no_panic (evs : List Ev) (x : String) : odsCellText evs ≠ .panic x := by
+  intro h
+  rcases ods_reader_total evs with ⟨r, hr⟩ | ⟨e, he⟩
+  · rw [hr] at h; cases h
+  · rw [he] at h; cases h
 
 /-! ## ods: string cells -/
 
@@ -393,5 +425,206 @@ example :
 
 example : wideStr (encodeWide [0x41, 0xD83D, 0xDE00] ++ [7, 7]) = .ok ([0x41, 0xD83D, 0xDE00], 10) := by
   decide
+
+end XmlText
+
+/-! ## below the event list: unescaping (quick-xml `escape::unescape`) and CDATA sections -/
+namespace XmlEscape
+
+/-- **Round trip of escaping.**  Whatever spelling the writer chooses for each character — the character
+    itself (anything but `&`), its predefined entity, a decimal or a hexadecimal character reference with any
+    number of leading zeros and either digit case (anything but U+0000) — unescaping gives the text back. -/
+theorem unescape_escape (cs : List (Char × Spelling)) (h : ∀ p ∈ cs, okSpelling p = true) :
+    unescape (escape cs) = .ok (cs.map Prod.fst) := by
+  unfold unescape escape
+  induction cs with
+  | nil => rfl
+  | cons p ps ih =>
+    have hp := h p (List.mem_cons_self ..)
+    have := ih (fun q hq => h q (List.mem_cons_of_mem _ hq))
+    simp only [List.map_cons, List.flatten_cons]
+    rw [escape1_spec p.1 p.2 _ hp, this]
+    rfl
+
+/-- the same under the hypothesis of the property: every character is an XML 1.0 `Char` (so none is U+0000)
+    and `&` is not written literally -/
+theorem unescape_escape_xmlchar (cs : List (Char × Spelling)) (hx : ∀ p ∈ cs, XmlChar p.1 = true)
+    (hamp : ∀ p ∈ cs, p.2 = .lit → p.1 ≠ '&') :
+    unescape (escape cs) = .ok (cs.map Prod.fst) := by
+  apply unescape_escape
+  intro p hp
+  have hc := hx p hp
+  have h0 : p.1.toNat ≠ 0 := by
+    intro e
+    simp [XmlChar, e] at hc
+  obtain ⟨c, sp⟩ := p
+  cases sp with
+  | lit => simpa [okSpelling] using hamp (c, .lit) hp rfl
+  | named => rfl
+  | dec z => simpa [okSpelling] using h0
+  | hex z up => simpa [okSpelling] using h0
+
+/-- a text without `&` is returned unchanged (`;` is an ordinary character outside a reference) -/
+theorem unescape_no_amp_identity (s : List Char) (h : ∀ c ∈ s, c ≠ '&') : unescape s = .ok s := by
+  unfold unescape
+  induction s with
+  | nil => rfl
+  | cons c r ih =>
+    rw [unesc_lit c r (h c (List.mem_cons_self ..)), ih (fun d hd => h d (List.mem_cons_of_mem _ hd))]
+    rfl
+
+/-- `unescape` returns `Ok` or `Err` on every input (no panic, no loop) -/
+theorem unescape_total (s : List Char) : (∃ r, unescape s = .ok r) ∨ (∃ e, unescape s = .err e) := by
+  have hfs : ∀ (src : List Char) (r : Nat), (∃ n, fromStrRadix src r = .ok n) ∨ (∃ e, fromStrRadix src r = .err e) := by
+    intro src r
+    cases src with
+    | nil => exact Or.inr ⟨_, rfl⟩
+    | cons c cs =>
+      simp only [fromStrRadix]
+      by_cases h1 : c = '+' ∨ c = '-'
+      · rw [if_pos h1]; exact Or.inr ⟨_, rfl⟩
+      · rw [if_neg h1]
+        by_cases h2 : (c :: cs).all (if r = 16 then isHex else isDec) = true ∧ numVal r (c :: cs) < 4294967296
+        · rw [if_pos h2]; exact Or.inl ⟨_, rfl⟩
+        · rw [if_neg h2]; exact Or.inr ⟨_, rfl⟩
+  have hpn : ∀ num, (∃ c, parseNumber num = .ok c) ∨ (∃ e, parseNumber num = .err e) := by
+    intro num
+    have hc : (∃ n, parseCode num = .ok n) ∨ (∃ e, parseCode num = .err e) := by
+      unfold parseCode; split <;> exact hfs _ _
+    unfold parseNumber
+    rcases hc with ⟨n, hn⟩ | ⟨e, he⟩
+    · rw [hn]
+      simp only [checkCode]
+      by_cases h0 : n = 0
+      · rw [if_pos h0]; exact Or.inr ⟨_, rfl⟩
+      · rw [if_neg h0]
+        by_cases hs : isScalar n = true
+        · rw [if_pos hs]; exact Or.inl ⟨_, rfl⟩
+        · rw [if_neg hs]; exact Or.inr ⟨_, rfl⟩
+    · rw [he]; exact Or.inr ⟨_, rfl⟩
+  have hres : ∀ pat, (∃ v, resolve pat = .ok v) ∨ (∃ e, resolve pat = .err e) := by
+    intro pat
+    unfold resolve
+    split
+    · rename_i num
+      rcases hpn num with ⟨c, hc⟩ | ⟨e, he⟩
+      · rw [hc]; exact Or.inl ⟨_, rfl⟩
+      · rw [he]; exact Or.inr ⟨_, rfl⟩
+    · split
+      · exact Or.inl ⟨_, rfl⟩
+      · exact Or.inr ⟨_, rfl⟩
+  have hpre : ∀ (a : List Char) (x : Res (List Char)), ((∃ r, x = .ok r) ∨ (∃ e, x = .err e)) →
+      ((∃ r, prepend a x = .ok r) ∨ (∃ e, prepend a x = .err e)) := by
+    intro a x hx
+    rcases hx with ⟨r, rfl⟩ | ⟨e, rfl⟩
+    · exact Or.inl ⟨_, rfl⟩
+    · exact Or.inr ⟨_, rfl⟩
+  have : ∀ (s : List Char) (m : Option (List Char)), (∃ r, unesc m s = .ok r) ∨ (∃ e, unesc m s = .err e) := by
+    intro s
+    induction s with
+    | nil => intro m; cases m <;> simp [unesc]
+    | cons c r ih =>
+      intro m
+      cases m with
+      | none =>
+        simp only [unesc]
+        split
+        · exact ih _
+        · exact hpre _ _ (ih _)
+      | some pat =>
+        simp only [unesc]
+        split
+        · rcases hres pat with ⟨v, hv⟩ | ⟨e, he⟩
+          · rw [hv]; exact hpre _ _ (ih _)
+          · rw [he]; exact Or.inr ⟨_, rfl⟩
+        · split
+          · exact Or.inr ⟨_, rfl⟩
+          · exact ih _
+  exact this s none
+
+/-- **What quick-xml does with a numeric reference**, for every value below 2^32 written in decimal with any
+    number of leading zeros: 0 is refused, surrogates and values above U+10FFFF are refused, and *every other
+    scalar value is accepted* — also the ones outside the XML `Char` production (`&#1;`, `&#xFFFE;`): quick-xml
+    is more permissive than XML 1.0 here, which is harmless for reading (property C19 quantifies over `Char`). -/
+theorem charref_semantics (z n : Nat) (h : n < 4294967296) :
+    unescape ('&' :: '#' :: (List.replicate z '0' ++ digits 10 false n ++ [';'])) =
+      if n = 0 then .err "InvalidCharRef(IllegalCharacter)"
+      else if isScalar n then .ok [Char.ofNat n]
+      else .err "InvalidCharRef(InvalidCodepoint)" := by
+  have hbody := refbody_clean _ (zeros_digits_hex z 10 (Or.inl rfl) false n)
+  have hb2 : ('#' :: (List.replicate z '0' ++ digits 10 false n)).all (fun c => c ≠ '&' ∧ c ≠ ';') = true := by
+    simp only [List.all_cons, hbody, Bool.and_true]; decide
+  have := unesc_ref ('#' :: (List.replicate z '0' ++ digits 10 false n)) [] [] hb2
+  simp only [List.cons_append, List.append_assoc, List.nil_append] at this
+  unfold unescape
+  rw [unesc_amp]
+  simp only [List.append_assoc]
+  rw [this]
+  simp only [resolve, parseNumber, parseCode_dec z n h, checkCode]
+  by_cases h0 : n = 0
+  · simp [h0, thenRest]
+  · by_cases hs : isScalar n = true
+    · simp [h0, hs, thenRest, prepend, unesc]
+    · simp [h0, hs, thenRest]
+
+/-- the malformed shapes: a lone or unterminated `&`, an unknown entity, an empty or signed number,
+    an upper-case `X`, a number that does not fit 32 bits, U+0000, a surrogate -/
+example :
+    unescape "a&".toList = .err "UnterminatedEntity" ∧
+    unescape "&amp".toList = .err "UnterminatedEntity" ∧
+    unescape "&a&b;".toList = .err "UnterminatedEntity" ∧
+    unescape "&unknown;".toList = .err "UnrecognizedEntity" ∧
+    unescape "&;".toList = .err "UnrecognizedEntity" ∧
+    unescape "&#;".toList = .err "InvalidCharRef(InvalidNumber)" ∧
+    unescape "&#x;".toList = .err "InvalidCharRef(InvalidNumber)" ∧
+    unescape "&#X41;".toList = .err "InvalidCharRef(InvalidNumber)" ∧
+    unescape "&#+65;".toList = .err "InvalidCharRef(UnexpectedSign)" ∧
+    unescape "&#99999999999;".toList = .err "InvalidCharRef(InvalidNumber)" ∧
+    unescape "&#0;".toList = .err "InvalidCharRef(IllegalCharacter)" ∧
+    unescape "&#xD800;".toList = .err "InvalidCharRef(InvalidCodepoint)" ∧
+    unescape "&#1;;&#x0041;&#065;&lt;".toList = .ok [Char.ofNat 1, ';', 'A', 'A', '<'] := by
+  decide
+
+/-- non-vacuity of `unescape_escape`: `a & <😀` spelled five ways -/
+example :
+    let cs : List (Char × Spelling) := [('a', .lit), (' ', .dec 2), ('&', .named), (' ', .hex 0 true), ('<', .hex 1 false), ('😀', .dec 0), ('>', .named), ('x', .named)]
+    (∀ p ∈ cs, okSpelling p = true) ∧ (∀ p ∈ cs, XmlChar p.1 = true) := by
+  decide
+
+end XmlEscape
+
+namespace XmlText
+
+/-- **CDATA sections, writer against reader.**  The writer cuts a text into sections before every `>` that
+    follows `]]`; no section then contains the terminator `]]>` (so each is delimited unambiguously, whatever
+    the text), the sections concatenate back to the text, and the reader — which appends CData events like
+    Text events — returns exactly the text.  (Where the tokenizer ends a section is quick-xml's part.) -/
+theorem cdata_sections_roundtrip (closing : Name) (lead : List Ev) (t : TElem) (s : Txt) (trail rest : List Ev)
+    (h : (StringForm.plain lead t trail).wf closing = true) :
+    (∀ sec ∈ cdataSplit s, NoCdataEnd sec) ∧ (cdataSplit s).flatten = s ∧
+    readString closing (renderSi closing (.plain lead { t with body := (cdataSplit s).map Chunk.cdata } trail) ++ rest)
+      = .ok (some s, rest) := by
+  refine ⟨cdataSplitAux_noEnd s [] (noCdataEnd_short _ (by simp)), by simp [cdataSplit, cdataSplitAux_flatten], ?_⟩
+  rw [plain_roundtrip _ _ _ _ _ (by simpa [StringForm.wf] using h)]
+  simp [TElem.txt, chunksText_cdata, cdataSplit, cdataSplitAux_flatten]
+
+/-- `read_shared_strings` is modelled twice (property C01: `Model/XlsxCells`, property C19: `Model/XmlText`):
+    on the converted events the two models return the same table (and fail together; only the error names
+    differ). `Ev.wf`: every element name is split at its first colon, as the tokenizer delivers it. -/
+theorem readSharedStrings_eq_XlsxCells (evs : List Ev) (hev : ∀ e ∈ evs, e.wf) :
+    XlsxCells.readSharedStrings (evs.map convEv) = convRes (readSharedStrings evs) := by
+  have := sstLoop_conv evs hev .top trivial []
+  simpa [XlsxCells.readSharedStrings, readSharedStrings, convSst] using this
+
+
+/-- non-vacuity: prefixed and unprefixed names are well-formed, `x:si` has local name `si` in both models -/
+example : (Ev.start ⟨some "x", "si"⟩ []).wf ∧ XlsxCells.localName (nameBytes ⟨some "x", "si"⟩) = XlsxCells.nSi := by
+  refine ⟨?_, ?_⟩
+  · show (58 : Nat) ∉ sb "x"
+    decide
+  · rfl
+
+/-- `a]]>b]]` is written as the sections `a]]` and `>b]]` -/
+example : cdataSplit [97, 93, 93, 62, 98, 93, 93] = [[97, 93, 93], [62, 98, 93, 93]] := by decide
 
 end XmlText
